@@ -21,6 +21,10 @@ PORTS = "fuel_core_importer::ports"
 CR = ["fuel_core_importer"]
 
 
+from rules import rvalue_locals
+from core import AnchorMissing, Origins, atom_match
+
+
 def check(ctx):
     # ---- 1. create_block_changes ---------------------------------------------------------
     with ctx.clause("1.create_block_changes"):
@@ -59,12 +63,18 @@ def check(ctx):
         add = ctx.one_call(b, "u32::checked_add")
         ctx.const_arg("1.next-is-plus-one", add, 1, 1, detail="expected height = latest + 1")
         ctx.arg_origin("1.next-from-latest", add, 0, f"call:{PORTS}::ImporterDatabase::latest_block_height")
+        lbh = [c for c in b.calls_to(f"{PORTS}::ImporterDatabase::latest_block_height") if c.bb in b.live]
+        dfl1 = [c for c in b.calls if c.bb in b.live and c.name in ("unwrap_or_default", "unwrap_or", "unwrap_or_else") and
+                atom_match(Origins(b, 2).atoms(c.args[0]), f"call:{PORTS}::ImporterDatabase::latest_block_height") and b.path([c.target], [add.bb]) is not None]
+        ctx.expect_sites("1.missing-latest-height-is-not-defaulted", dfl1, exactly=0,
+                         what="default substituted for a missing latest height before the `latest + 1` computation (a PoA block of height 1 would be accepted on an empty database)")
+        okor = [c for c in b.calls if c.bb in b.live and c.name in ("ok_or", "ok_or_else") and atom_match(Origins(b, 2).atoms(c.args[0]), f"call:{PORTS}::ImporterDatabase::latest_block_height")]
+        ctx.expect_sites("1.missing-latest-height-is-an-error", okor, at_least=1, what="latest_block_height()?.ok_or(not found) on the non-genesis arm")
 
     # ---- 2. store_new_block accumulates 'found' over the three tables ----------------------
     with ctx.clause("2.store_new_block"):
         us = ctx.F.find_units("<* as fuel_core_importer::ports::DatabaseTransaction>::store_new_block", "fuel_core_importer")
         if len(us) != 1:
-            from core import AnchorMissing
             raise AnchorMissing(f"impl DatabaseTransaction::store_new_block: found {len(us)}")
         b = ctx.body_with(us[0], "fuel_storage::StorageMut::replace")
         for table in ("FuelBlocks", "SealedBlockConsensus", "Transactions"):
@@ -74,6 +84,25 @@ def check(ctx):
                 ctx.flows(f"2.found-includes-{table}", c, to_return=True,
                           through_calls=("core::option::Option::is_some",),
                           detail=f"'found' returned by store_new_block includes the replace result of {table}")
+        # 'found' accumulates: once set by one table it is never overwritten by a later replace result
+        ret2 = ctx.returned_locals(b)
+        flag = [l for l in ret2 if l != 0 and l < len(b.locals) and b.locals[l].get("t") == "bool" and b.local_name(l)]
+        over2 = []
+        n_acc = 0
+        for l in flag:
+            ds = [d for d in b.defs.get(l, []) if (d[0] == "call") or not d[3].get("p")]
+            first_bb = min((d[1] if d[0] == "assign" else d[1].bb) for d in ds) if ds else None
+            for d in ds:
+                dbb = d[1] if d[0] == "assign" else d[1].bb
+                if dbb == first_bb:
+                    continue
+                acc = d[0] == "assign" and d[4]["k"] == "bin" and d[4].get("op") in ("BitOr", "Or") and l in rvalue_locals(d[4])
+                n_acc += 1 if acc else 0
+                if not acc:
+                    over2.append(f"{b.local_name(l)} overwritten at line {(d[4] if d[0] == 'assign' else {}).get('line') or b.blocks[dbb]['t'].get('line')}")
+        ctx.add("2.found-accumulates", "PAIR", bool(flag) and not over2 and n_acc >= 2,
+                "every later update of the returned flag is `found |= ..` (an existing block, consensus record or earlier transaction is not forgotten when a later transaction is new)" +
+                (f": {over2}" if over2 else ""), sites=[str(b.local_name(l)) for l in flag], site_key="acc")
         commit = ctx.one_call(b, "fuel_core_storage::structured_storage::StructuredStorage::commit")
         ctx.must_pass("2.commit", b, [commit], detail="store_new_block commits its write transaction on success")
 
@@ -154,7 +183,6 @@ def check(ctx):
         ctx.arg_origin("5.lock-uses-guard", tr[0], 0, "field:fuel_core_importer::importer::Importer.guard")
         # the guard semaphore has exactly one permit
         nb = ctx.body_with(f"{IMP}::Importer::new", "tokio::sync::semaphore::Semaphore::new")
-        from core import Origins
         o = Origins(nb, 1)
         ok = False
         where = []
@@ -187,7 +215,6 @@ def check(ctx):
     with ctx.clause("7.adapter"):
         us = ctx.F.find_units("<fuel_core::state::generic_database::GenericDatabase as fuel_core_importer::ports::ImporterDatabase>::commit_changes", "fuel_core")
         if len(us) != 1:
-            from core import AnchorMissing
             raise AnchorMissing(f"impl ImporterDatabase for Database::commit_changes: found {len(us)}")
         b = us[0].root
         calls = [c for c in b.calls if c.bb in b.live]
